@@ -74,10 +74,10 @@ class Ref:
 
 class ArrC:
     """content of a numeric 1-D array (immutable value; stores produce new ArrC)"""
-    __slots__ = ('vals', 'nans', 'n')
+    __slots__ = ('vals', 'nans', 'n', 'kind')
 
-    def __init__(self, vals, n, nans=None):
-        self.vals, self.n, self.nans = vals, n, nans
+    def __init__(self, vals, n, nans=None, kind=None):
+        self.vals, self.n, self.nans, self.kind = vals, n, nans, kind     # kind: None | 'bool' | 'int'
 
     def nan_at(self, i):
         return z3.BoolVal(False) if self.nans is None else self.nans[i]
@@ -195,8 +195,8 @@ class TFloat(Sort):
 
 class TArr(Sort):
     """numeric 1-D numpy array; ``nan=True`` tracks a NaN mask; ``n`` optional path/term giving the length"""
-    def __init__(self, nan=False, n=None):
-        self.nan, self.n = nan, n
+    def __init__(self, nan=False, n=None, kind=None):
+        self.nan, self.n, self.kind = nan, n, kind
 
     def make(self, st, name):
         n = self.n if self.n is not None else fresh(name + '.len', I)
@@ -204,7 +204,11 @@ class TArr(Sort):
             n = st.load(n)
         if self.n is None:
             st.assume(n >= 0)
-        c = ArrC(fresh(name, z3.ArraySort(I, R)), n, fresh(name + '.nans', z3.ArraySort(I, Bo)) if self.nan else None)
+        c = ArrC(fresh(name, z3.ArraySort(I, R)), n, fresh(name + '.nans', z3.ArraySort(I, Bo)) if self.nan else None,
+                 kind=self.kind)
+        if self.kind == 'int':
+            k = fresh('k', I)
+            st.assume(z3.ForAll([k], z3.IsInt(c.vals[k])))
         return st.new_ref(c, name)
 
 
@@ -219,6 +223,25 @@ class TSeq(Sort):
         c = SeqC(fresh(name, z3.ArraySort(I, self.elem)), n,
                  fresh(name + '.nans', z3.ArraySort(I, Bo)) if self.nan else None)
         return st.new_ref(c, name)
+
+
+class Coll:
+    """abstract ordered collection (dict / list) of heap objects of symbolic size; elements are not enumerated:
+    a loop over it executes its body once for one arbitrary element ``Obj(path + '.$e')``"""
+    __slots__ = ('path', 'n', 'keysort')
+
+    def __init__(self, path, n, keysort=None):
+        self.path, self.n, self.keysort = path, n, keysort
+
+
+class TColl(Sort):
+    def __init__(self, keysort=None):
+        self.keysort = keysort
+
+    def make(self, st, name):
+        n = fresh(name + '.size', I)
+        st.assume(n >= 0)
+        return Coll(name, n, self.keysort)
 
 
 class TObj(Sort):
@@ -390,6 +413,10 @@ class State:
             if isinstance(v, Ref) and isinstance(v2, Ref):
                 self.locs[v.loc] = self.locs.pop(v2.loc)     # same identity, havoced content
                 self.loc_names.pop(v2.loc, None)
+            elif isinstance(v2, Coll):
+                v = Coll(path, v2.n, v2.keysort)
+            elif isinstance(v2, Obj):
+                v = Obj(path, v2.cls)
             else:
                 v = v2
         self.heap[path] = v
